@@ -400,6 +400,8 @@ func runC09(c *Ctx, tier string) {
 	runVectorCountAccumulates(c, "C09-A1")
 	runVectorizeDeclinesSliced(c, "C09-G5")
 	runVectorCountReadsNulls(c, "C09-N2")
+	runBitmapWordLoops(c, "C09-B1")
+	runBitmapShiftCounts(c, "C09-B2")
 	c.borrow(func(t *Ctx) { runVcacheLoadsWhatItProjects(t, "C03-P2") }, map[string]string{"C03-P2": "C09-P2"})
 }
 
